@@ -340,6 +340,47 @@ theorem nodup_dedupInto (xs : List Obst) : ∀ (res : List Obst), res.Nodup → 
       apply ih
       exact List.nodup_append.mpr ⟨h, by simp, by intro a ha b hb; simp at hb; subst hb; intro e; exact hx (e ▸ ha)⟩
 
+/-! ### Scenario.remove_lanelet(list), possibly failing half-way -/
+
+theorem scRemove_spec (ids : List Int) : ∀ (n : Net), Buffered n →
+    Buffered (scRemoveLoop n ids).1 ∧ (Fresh n → Fresh (scRemoveLoop n ids).1) ∧
+    ((∃ i ∈ ids.head?, i ∈ n.lanelets.map (·.id)) → Fresh (scRemoveLoop n ids).1) := by
+  induction ids with
+  | nil => intro n hb; exact ⟨hb, id, by simp⟩
+  | cons i is ih =>
+    intro n hb
+    unfold scRemoveLoop
+    by_cases h : i ∈ n.lanelets.map (·.id)
+    · rw [if_pos ((any_id_iff _ _).mpr h)]
+      obtain ⟨n', h1, hb', hf', _⟩ := remove_spec i true hb
+      rw [h1]
+      obtain ⟨k1, k2, _⟩ := ih n' hb'
+      exact ⟨k1, fun _ => k2 (hf' rfl), fun _ => k2 (hf' rfl)⟩
+    · rw [if_neg (fun hc => h ((any_id_iff _ _).mp hc))]
+      refine ⟨hb, id, ?_⟩
+      rintro ⟨j, hj, hj'⟩
+      simp only [List.head?_cons, Option.mem_def, Option.some.injEq] at hj
+      subst hj; exact absurd hj' h
+
+/-- The lanelets left by `Scenario.remove_lanelet(ids)`: the entries up to the first one that is not (any more) in
+    the network are removed, the others stay — whether or not the call raised. -/
+theorem scRemove_lanelets (ids : List Int) : ∀ (n : Net), Buffered n →
+    ∀ l, l ∈ (scRemoveLoop n ids).1.lanelets → l ∈ n.lanelets := by
+  induction ids with
+  | nil => intro n _ l h; exact h
+  | cons i is ih =>
+    intro n hb l
+    unfold scRemoveLoop
+    by_cases h : i ∈ n.lanelets.map (·.id)
+    · rw [if_pos ((any_id_iff _ _).mpr h)]
+      obtain ⟨n', h1, hb', _, hl⟩ := remove_spec i true hb
+      rw [h1]
+      intro hm
+      have := ih n' hb' l hm
+      rw [hl] at this
+      exact (List.mem_filter.mp this).1
+    · rw [if_neg (fun hc => h ((any_id_iff _ _).mp hc))]; exact id
+
 /-! ### operation sequences: vocabulary of the property theorems -/
 
 /-- Admissible operation in a state: a lanelet that is added brings a polygon object of its own (Python: a live
@@ -349,6 +390,7 @@ def Adm (n : Net) : Op → Prop
   | .remove _ _ => True
   | .addFrom ls => (ls.map (·.poly.addr)).Nodup ∧ ∀ l ∈ ls, l.poly.addr ∉ n.lanelets.map (·.poly.addr)
   | .copy f => Function.Injective f
+  | .scRemove _ => True
 
 /-- Every operation of a sequence is admissible in the state it is applied to. -/
 def AdmSeq : Net → List Op → Prop
@@ -361,6 +403,7 @@ def rebuilds : Op → Bool
   | .remove _ r => r
   | .addFrom _ => true
   | .copy _ => true
+  | .scRemove _ => true
 
 /-- The operation certainly rebuilds the index in state `n`. -/
 def refreshes (n : Net) : Op → Prop
@@ -368,6 +411,7 @@ def refreshes (n : Net) : Op → Prop
   | .remove _ r => r = true
   | .addFrom _ => True
   | .copy _ => True
+  | .scRemove ids => ∃ i ∈ ids.head?, i ∈ n.lanelets.map (·.id)
 
 
 theorem run_append (ops : List Op) : ∀ (n n1 : Net) (o : Op), run n ops = .ok n1 →
